@@ -176,7 +176,13 @@ Definition T_tl2typeSign := ty_neg tk_tl2typeSign_neg.
 Inductive ekind :=
 | E_cr | E_utf8 | E_multiline | E_slash | E_underscore | E_undefined | E_modifier
 | E_tag | E_number | E_namespace
-| E_illegalTL1 | E_illegalTL2 | E_illegalTL2_arith | E_illegalTL2_boxed | E_illegalTL2_sections.
+| E_illegalTL1 | E_illegalTL2 | E_illegalTL2_arith | E_illegalTL2_boxed | E_illegalTL2_sections
+(* messages of the TL1 parser (tlparser_code.go, tlparser_typeref.go), used by Lex/LexParse1Model.v *)
+| E1_lcname | E1_ucname | E1_varname | E1_tag_conv | E1_targ_colon | E1_targ_type | E1_targ_close
+| E1_rparen | E1_const_overflow | E1_arith_expected | E1_arith_overflow | E1_lsq_after_star
+| E1_bitnum | E1_bitmask_conv | E1_q_after_mask | E1_field_type | E1_return_type | E1_q_in_function
+| E1_eq_after_q | E1_semicolon | E1_round_not_allowed | E1_rparen_or_type | E1_comma_gt_type
+| E1_gt_or_type | E1_name.
 
 (** parseErrToken(err, tok, outer): Begin = tok.pos, End = tok.pos advanced by len(tok.val) *)
 Record perr := mkErr { e_kind : ekind; e_tok : token; e_outer : pos }.
